@@ -115,6 +115,8 @@ func ReceiveDirectInvoke(w http.ResponseWriter, r *http.Request, token interop.T
 		}
 	}
 
+	// the header is optional: an invoke without it is buffered, whatever the previous invoke was
+	InvokeResponseMode = interop.InvokeResponseModeBuffered
 	if valueFromHeader := r.Header.Get(InvokeResponseModeHeader); valueFromHeader != "" {
 		invokeResponseMode, err := convertToInvokeResponseMode(valueFromHeader)
 		if err != nil {
